@@ -198,7 +198,7 @@ func (f *Filter) paren() string {
 
 // Flags are benchstat's flags; nil/zero fields are omitted from the command line.
 type Flags struct {
-	Table, Row, Col, Ignore []Item
+	Table, Row, Col, Ignore  []Item
 	HasTable, HasRow, HasCol bool // flag given (possibly with an empty list)
 	Filter                   *Filter
 	Alpha                    float64 // <0: omitted
